@@ -33,6 +33,8 @@ def run(prog, chk):
     no_duplicate_attrs(prog, chk)
     root_synthesis(prog, chk)
     eof_open_elements(prog, chk)
+    from props import C01
+    C01.utf8_boundary(prog, chk)  # output is UTF-8 because every input event was validated (pass-through carries bytes along)
 
 
 def no_duplicate_attrs(prog, chk):
@@ -153,8 +155,47 @@ def root_synthesis(prog, chk):
     close = [1 for b, i, s in pp.all_stmts() if s.get("rv", {}).get("k") == "aggr" and s["rv"].get("adt") == "svgdx::events::OutputEvent" and s["rv"].get("variant") == "End"]
     empties = any(R.switch_discr_place(pp, b) is not None and "OutputEvent" in R.switch_discr_place(pp, b)[1] for b in pp.reachable)
     chk.ob(bool(close) and empties, "A13.root-closed", "postprocess:empty-root", pp.where(), "an empty-element root `<svg/>` (written as a start tag) gets its end tag", "an empty-element root is written as a start tag that is never closed (unclosed document)")
+    # ... on every successful path: after the root start tag has been written, no path reaches a normal return
+    # without passing the test that decides whether the end tag must be added
+    end_blocks = {b for b, i, s in pp.all_stmts() if s.get("rv", {}).get("k") == "aggr" and s["rv"].get("adt") == "svgdx::events::OutputEvent" and s["rv"].get("variant") == "End"}
+    tests = set()
+    for b in pp.reachable:
+        t = pp.term(b)
+        if t["k"] == "switch" and op_place(t["op"]) is not None:
+            tt, ft = R.switch_targets_bool(t)
+            # the deciding test: its true edge dominates the End construction, its false edge cannot reach it
+            if tt is not None and ft is not None and end_blocks and all(pp.dominates(tt, e) for e in end_blocks) and not (pp.reach([ft], avoid={tt}) & end_blocks) and _flag_like(pp, op_place(t["op"])[0]):
+                tests.add(b)
+    roots = [t["t"] for (bb, t, c) in pp.call_sites(R.path_endswith("Transformer::write_root_svg"))]
+    err_exits = {bb for (bb, t, c) in pp.call_sites(lambda c: c.decl_path.endswith("FromResidual::from_residual"))}
+    rets = set(pp.return_blocks)
+    leak = bool(tests) and bool(roots) and bool(pp.reach(roots, avoid=tests | err_exits) & rets)
+    chk.ob(bool(tests) and bool(roots) and not leak, "A13.root-closed", "postprocess:every-path", pp.where(), "after the root start tag is written every successful path passes the test that adds the end tag of an empty-element root", "postprocess can return successfully after writing the root start tag without passing the `root was <svg/>` test: an empty-element root stays unclosed on that path (e.g. an early return when nothing is injected)")
     wr_pat = [1 for b in wr.reachable if R.switch_discr_place(wr, b) is not None and "OutputEvent" in R.switch_discr_place(wr, b)[1] and len(wr.term(b)["vals"]) >= 2]
     chk.ob(bool(wr_pat), "A13.root-closed", "write_root_svg:empty-root-attrs", wr.where(), "write_root_svg takes the author's root attributes from Start as well as Empty roots", "attributes of an empty-element root are dropped")
+
+
+def _flag_like(body, local, depth=3):
+    """a bool local all of whose definitions are constants (possibly through a copy of another such local): a flag
+    recording which way an earlier match went, as opposed to a configuration value"""
+    defs = body.defs_of(local)
+    if not defs or depth == 0:
+        return False
+    for d in defs:
+        if d[1] == R.TERM:
+            return False
+        rv = d[2]
+        if rv["k"] != "use":
+            return False
+        k = op_const(rv["op"])
+        if k is not None:
+            if "bool" not in k:
+                return False
+            continue
+        pl = op_place(rv["op"])
+        if pl is None or pl[1] or not _flag_like(body, pl[0], depth - 1):
+            return False
+    return True
 
 
 def _presence_only(wr):
